@@ -77,6 +77,8 @@ def audit(prop, thorough):
     path = f"{BUILD}/audit/{prop}.lean"
     with open(path, "w") as f:
         f.write(f"import {mod}\n")
+        for m in PROPS[prop].get("extra_modules", []):
+            f.write(f"import {m}\n")
         for t in thms:
             f.write(f"#print axioms {t}\n")
     with Lock("lake"):
@@ -100,9 +102,10 @@ def audit(prop, thorough):
             discharged += 1
     if thorough and not problems:
         with Lock("lake"):
-            rc, out = sh(["lake", "env", "leanchecker", mod], cwd=f"{VERIF}/lean", timeout=3600)
-        if rc != 0:
-            problems.append(f"leanchecker {mod} failed: {out.strip()[:300]}")
+            for m in [mod] + PROPS[prop].get("extra_modules", []):
+                rc, out = sh(["lake", "env", "leanchecker", m], cwd=f"{VERIF}/lean", timeout=3600)
+                if rc != 0:
+                    problems.append(f"leanchecker {m} failed: {out.strip()[:300]}")
     return len(thms), discharged, problems, axioms
 
 
@@ -283,7 +286,7 @@ def main():
     notes = []
 
     ok_h, out_h = build_harness()
-    ok_l, out_l = build_lean([P["proof_module"], "foyer_model"])
+    ok_l, out_l = build_lean([P["proof_module"]] + P.get("extra_modules", []) + ["foyer_model"])
     obligations, discharged, problems, axioms = (len(P["theorems"]), 0, [], {})
     if ok_l:
         obligations, discharged, problems, axioms = audit(prop, tier == "thorough")
